@@ -8,7 +8,7 @@
    mode 0 obs = [out ; total ; counter ; reads ; writes]
    mode 1 obs = [out0 ; out1 ; cnt0 ; cnt1 ; closer]
    mode 2: r0 = ids, w0 = ops [[kind ; caller] ...], obs = [[ok ; count] ...] *)
-From TX Require Import Base.Val Model.Pipe Gen.C02.
+From TX Require Import Base.Val Model.Pipe Model.PipeClose Gen.C02.
 Open Scope N_scope.
 
 Definition dec_variant (v : tval) : variant := if vbool v then Sliced else Pinned.
@@ -116,16 +116,34 @@ Fixpoint tval_eqb (a b : tval) {struct a} : bool :=
   end.
 Definition check_life (c : tval) : bool := tval_eqb (life_obs c) (vnth 9 c).
 
+(* ---- mode 3: the stats backend is silent while the bridge closes.  case = [3; conns_first; patience [] | [k]; ...; obs]
+   obs = [source closed while parked; target closed while parked; [] | [Close returned / tunnel forgotten while parked]]
+   The closing thread alone runs k+6 steps; the backend thread never does. ---- *)
+Definition stall_model (c : tval) : cshared * list cthread :=
+  let o := if vbool (vnth 1 c) then ConnsFirst else HandlersFirst in
+  let pat := match vopt (vnth 2 c) with Some k => Some (vnat k) | None => None end in
+  close_run o pat (repeat 0%nat (match pat with Some k => k + 6 | None => 12 end)%nat).
+Definition stall_obs (c : tval) : tval :=
+  let s := stall_model c in
+  VL [vN_of_bool (x_src_closed (fst s)); vN_of_bool (x_tgt_closed (fst s));
+      vN_of_bool (match closer_pc s with Some CDone => true | _ => false end)].
+Definition check_stall (c : tval) : bool :=
+  let o := vnth 9 c in let m := stall_obs c in
+  N.eqb (vn (vnth 0 m)) (vn (vnth 0 o)) && N.eqb (vn (vnth 1 m)) (vn (vnth 1 o)) &&
+  match vopt (vnth 2 o) with Some r => N.eqb (vn (vnth 2 m)) (vn r) | None => true end.
+
 Definition check (c : tval) : bool :=
   match vn (vnth 0 c) with
   | 0 => check_copy c
   | 1 => check_bridge c
-  | _ => check_life c
+  | 2 => check_life c
+  | _ => check_stall c
   end.
 Definition predict (c : tval) : tval :=
   match vn (vnth 0 c) with
   | 0 => copy_obs c
   | 1 => bridge_obs c
-  | _ => life_obs c
+  | 2 => life_obs c
+  | _ => stall_obs c
   end.
 Close Scope N_scope.
